@@ -28,6 +28,7 @@ pub static PROP: Prop = Prop {
 };
 
 fn check(t: &mut Tape, ctx: &mut Ctx) -> CheckResult {
+    ctx.cap_medium(70);
     match t.weighted(&[11, 3, 6]) {
         0 => typing(t, ctx),
         1 => monogamy(t, ctx),
@@ -174,8 +175,8 @@ fn typing(t: &mut Tape, ctx: &mut Ctx) -> CheckResult {
 fn monogamy(t: &mut Tape, ctx: &mut Ctx) -> CheckResult {
     ctx.class("group:monogamy");
     let al = gen::Alpha { nl: 1, el: 6 };
-    let nin = t.range(0, 3);
-    let nops = t.range(0, 5);
+    let nin = t.range(0, ctx.mlen(3).min(40));
+    let nops = t.range(0, ctx.mlen(5).min(140));
     let c = gen::monogamous_circuit(t, super::c17::SIG, nin, nops);
     let keys = gen::op_keys(&[&c]);
     let o = optic_table(t, al, &keys, true, ctx);
@@ -351,8 +352,8 @@ fn derivative_case(ctx: &mut Ctx, c: &Diagram, vectors: &[(Vec<u64>, Vec<u64>)])
 
 fn derivative(t: &mut Tape, ctx: &mut Ctx) -> CheckResult {
     ctx.class("group:derivative");
-    let nin = t.range(0, 3);
-    let nops = t.range(0, if ctx.tier == Tier::Quick { 6 } else { 10 });
+    let nin = t.range(0, ctx.mlen(3).min(40));
+    let nops = t.range(0, ctx.mlen(if ctx.tier == Tier::Quick { 6 } else { 10 }).min(70));
     let c = gen::monogamous_circuit(t, POLY, nin, nops);
     let vectors: Vec<(Vec<u64>, Vec<u64>)> = (0..3)
         .map(|_| ((0..c.s.len()).map(|_| t.small_u64()).collect(), (0..c.t.len()).map(|_| t.small_u64()).collect()))
